@@ -111,21 +111,25 @@ structure St where
   ticks : Nat            -- receives from the throttle ticker so far
   script : List Res      -- results the scripted handler still has to produce (the last one repeats)
   log : List CallObs     -- what the scripted handler saw, one entry per invocation
+  hcid : Option String   -- the scripted handler sets the incoming message's correlation id to this value when called
   deriving DecidableEq, Repr, Inhabited
 
 abbrev Handler := St → Res × St
 
+def cidKey : String := "correlation_id"
+
 /-- the handler of the harness: records what it sees, answers with the next scripted result -/
 def scripted : Handler := fun st =>
-  let st1 := { st with log := st.log ++ [⟨st.ctx.deadline, st.ctx.done, st.acked, st.delay⟩] }
+  let md1 := match st.hcid with
+    | some v => mset st.md cidKey v
+    | none => st.md
+  let st1 := { st with log := st.log ++ [⟨st.ctx.deadline, st.ctx.done, st.acked, st.delay⟩], md := md1 }
   match st.script with
   | [] => (.ret [] none, st1)
   | [r] => (r, st1)
   | r :: rest => (r, { st1 with script := rest })
 
 /-! ### the middlewares -/
-
-def cidKey : String := "correlation_id"
 
 /-- `SetCorrelationID(id, msg)`: only when `Get` gives `""` -/
 def setCid (id : String) (o : Out) : Out :=
